@@ -60,6 +60,8 @@ func generateRestorer(names []string) error {
 						case data.Init:
 							g.Line().Commentf("Init: %s", frag.Name)
 							g.Add(frag.Field.Get("out")).Op("=").Op("&").Qual("go/ast", frag.Type.TypeName()).Values()
+							g.Id("r").Dot("Ast").Dot("Nodes").Index(frag.Field.Get("n")).Op("=").Add(frag.Field.Get("out"))
+							g.Id("r").Dot("Dst").Dot("Nodes").Index(frag.Field.Get("out")).Op("=").Add(frag.Field.Get("n"))
 						case data.Decoration:
 							g.Line().Commentf("Decoration: %s", frag.Name)
 							g.Id("r").Dot("applyDecorations").Call(Id("out"), Lit(frag.Name), Id("n").Dot("Decs").Dot(frag.Name), Do(func(s *Statement) { s.Lit(frag.Name == "End") }))
